@@ -13,6 +13,7 @@ import sys
 sys.path.insert(0, os.path.dirname(os.path.dirname(os.path.abspath(__file__))))
 import vlib
 from gen import types as T
+from gen import lookup
 
 
 def parse_file_decls(b, wd, text, name='d.h'):
@@ -156,6 +157,78 @@ def main():
         if q.returncode != 0:
             ck.spec_failure(key, 'declared %s  re-printed as  %s : not the same type for g++' % (decl, g), dict(rp, printed=g))
 
+    # ---------------- stream D: name lookup: same-named types in namespaces, base classes, nested scopes ----------
+    nD = ck.scale(60, 800)
+    for i in range(nD):
+        h, structs = lookup.gen(rng, i)
+        ck.count()
+        ck.dist('lookup')
+        rc, out, err = parse_file_decls(b, wd, h, 'lk.h')
+        rp = {'kind': 'spec', 'files': {'d.h': h}, 'cmd': 'parse_file d.h'}
+        if rc != 0:
+            ck.spec_failure('reject:lookup-scenario', 'parse_file rejects a valid header (name lookup scenario): ' + err[-200:], rp)
+            continue
+        asserts = []
+        for qual, mem in structs:
+            m = re.search(r'^\s*(.*\S)\s*\b%s;' % mem, out, re.M)
+            if m:
+                asserts.append('static_assert(std::is_same<decltype(%s::%s), %s>::value, "%s");' % (qual, mem, m.group(1), mem))
+        open(os.path.join(wd, 'lk.cpp'), 'w').write('#include <type_traits>\n#include "lk.h"\n' + '\n'.join(asserts) + '\n')
+        q = vlib.sh(['g++', '-std=gnu++14', '-fsyntax-only', '-w', '-I', wd, os.path.join(wd, 'lk.cpp')])
+        if q.returncode != 0:
+            el = [l for l in q.stdout.splitlines() if 'error' in l][:1]
+            ck.spec_failure('lookup:wrong-entity', 'a member type is re-printed as a name that denotes another entity (or nothing): ' + (el[0][-200:] if el else ''), dict(rp, asserts=asserts))
+        else:
+            ck.nontrivial('lk%d' % i)
+
+    # ---------------- stream E: declarations with several declarators ---------------------------------------------
+    nE = ck.scale(150, 2000)
+    lines = []
+    groups = []
+    for i in range(nE):
+        base = rng.choice(['const int', 'int', 'const char', 'double', 'const S', 'unsigned int'])
+        k = rng.randrange(2, 5)
+        decls = []
+        names = []
+        for j in range(k):
+            nm = 'w%d_%d' % (i, j)
+            names.append(nm)
+            decls.append(rng.choice(['%s', '*%s', '*const %s', '**%s', '%s[2]', '*%s[3]']) % nm)
+        lines.append('extern %s %s;' % (base, ', '.join(decls)))
+        groups.append((base, names, decls))
+    text = T.PREAMBLE + '\n'.join(lines) + '\n'
+    rc, out, err = parse_file_decls(b, wd, text, 'multi.h')
+    if rc != 0:
+        ck.spec_failure('reject:multi-declarator', 'parse_file rejects valid multi-declarator declarations: ' + err[-200:], {'kind': 'spec', 'files': {'d.h': text}, 'cmd': 'parse_file d.h'})
+    else:
+        gxx = [T.PREAMBLE.strip(), '#include <type_traits>', 'namespace orig {'] + lines + ['}', 'namespace rep {']
+        printed = {}
+        for ln in out.splitlines():
+            m = re.search(r'\b(w\d+_\d+)\b', ln)
+            if m and ln.rstrip().endswith(';'):
+                printed[m.group(1)] = ln.strip()
+                gxx.append(('' if ln.strip().startswith('extern') else 'extern ') + ln.strip())
+        gxx.append('}')
+        allnames = [n for _, names, _ in groups for n in names]
+        for n in allnames:
+            if n in printed:
+                gxx.append('static_assert(std::is_same<decltype(orig::%s), decltype(rep::%s)>::value, "%s");' % (n, n, n))
+        open(os.path.join(wd, 'multi.cpp'), 'w').write('\n'.join(gxx) + '\n')
+        q = vlib.sh(['g++', '-std=gnu++14', '-fsyntax-only', '-w', os.path.join(wd, 'multi.cpp')])
+        badn = set(re.findall(r'failed: (w\d+_\d+)', q.stdout)) if q.returncode != 0 else set()
+        if q.returncode != 0 and not badn:
+            badn = set(allnames[:1])
+        for (base, names, decls), ln in zip(groups, lines):
+            ck.count()
+            ck.dist('multi-declarator')
+            hit = [n for n in names if n in badn]
+            if hit:
+                ck.spec_failure('print:multi-declarator:' + ('const' if base.startswith('const') else 'plain'),
+                                'in "%s" the declarator %s is re-printed as "%s": another type' % (ln, hit[0], printed.get(hit[0])),
+                                {'kind': 'spec', 'files': {'d.h': T.PREAMBLE + ln + '\n'}, 'cmd': 'parse_file d.h', 'printed': [printed.get(n) for n in names]})
+            else:
+                ck.nontrivial(ln)
+
     # ---------------- stream C: the shipped stub headers that g++ accepts must parse ---------------------
     pinc = os.path.join(b['src'], 'parser-inc')
     n_inc = 0
@@ -175,7 +248,7 @@ def main():
                             {'kind': 'spec', 'cmd': 'parse_file -Sparser-inc parser-inc/' + f, 'stderr': p.stderr[-400:]})
         else:
             ck.nontrivial('inc' + f)
-    ck.cov['streams'] = {'declarator_trees': len(types), 'known_finding_cases': len(known), 'parser_inc_headers_accepted_by_gxx': n_inc}
+    ck.cov['streams'] = {'declarator_trees': len(types), 'known_finding_cases': len(known), 'parser_inc_headers_accepted_by_gxx': n_inc, 'lookup_scenarios': nD, 'multi_declarator_declarations': nE}
     ck.cov['rule'] = ('random well-formed types (pointers, lvalue/rvalue references, const, arrays, functions, method pointers; depth <= 6), written by an independent west-const '
                       'reference printer, re-printed by parse_file: text must equal the model printer, and g++ must find decltype(original) and decltype(reprinted) the same type; '
                       'every parser-inc stub header that g++ -fsyntax-only accepts must parse. Non-trivial = distinct type tree that passed both comparisons')
